@@ -6,7 +6,7 @@
 EXTENDS Integers, Sequences, TLC, Json
 CONSTANT Ok(_)
 VARIABLES l, bad
-Tr == ndJsonDeserialize("trace.ndjson")
+Tr == TLCGet(3)      \* the root module does ASSUME TLCSet(3, ndJsonDeserialize("trace.ndjson")): parsed once, not per step
 LInit == l = 1 /\ bad = {}
 LNext == l <= Len(Tr) /\ l' = l + 1 /\ bad' = IF Ok(Tr[l]) THEN bad ELSE bad \cup {l}
 LSpec == LInit /\ [][LNext]_<<l, bad>>
